@@ -688,6 +688,21 @@ def depth2_for_left(leaves: list, ai: int, ops: tuple = BINOPS) -> list:
     return out
 
 
+def eleaves(t: tuple) -> set:
+    if t[0] == 'leaf':
+        return {t[1]}
+    out: set = set()
+    for c in echildren(t):
+        out |= eleaves(c)
+    return out
+
+
+def in_quick_core(t: tuple, core: tuple) -> bool:
+    """Quick-tier rule for depth-2 binary trees: keep the tree if one of its
+    operands is a leaf, or if it only uses the core leaves."""
+    return t[2][0] == 'leaf' or t[3][0] == 'leaf' or eleaves(t) <= set(core)
+
+
 def depth2_unary(leaves: list) -> list:
     O = operands(leaves)
     nl = len(leaves)
